@@ -1,62 +1,352 @@
-(* GErrRace.v — the memory accesses of derivations, at the granularity of whole objects
-   (definitions only).
+(* GErrRace.v — the memory accesses of derivations, DERIVED from an instrumented copy of the
+   model (definitions only; proofs in GErrRaceProofs.v).
 
-   One method call reads the receiver (CloneBase copies the fields of *err._embededGError(); the
-   generated toPrimaryType reads the receiver's clone-tagged fields) and writes only the object
-   it has just allocated (the literal &GError{...} and the later assignments to clone.*, the
-   struct literal of toPrimaryType).  Convert/ConvertS's early return touches no gerror object's
-   fields.  FactoryOf's write of isFactory happens when the factory is built, before it is
-   shared.  A goroutine owns the cells it allocates; the cells that exist before the goroutines
-   start (indices below the length of the initial store) are the shared ones.
-   This is the part of "free of data races" a model can carry; the Go memory model itself is
-   exercised by the race-detector run of ./check C15 --tier thorough.                         *)
+   Granularity: one access = one field of one cell (a cell = one GError object of the store of
+   GErrModel.v), or one slot of one backing array of a laterSrcErrors slice (GErrSlice.v).
+
+   The trace of a derivation is not written down by hand: CloneBase is re-stated below as a
+   program in a small state monad whose only primitives are
+       rd_base f        read field f of *base            logs  Rd bi f
+       rd_clone f       read field f of *clone           logs  Rd fresh f
+       wr_clone f x     clone.f = x                      logs  Wr fresh f
+       alloc_clone      the allocation of &GError{}      logs  Wr fresh f for every field
+   so an access is logged exactly where the program touches memory, and a value can only be
+   obtained from memory through a logged read.  The program follows gerror/factory.go CloneBase
+   statement by statement (block names = the comments of the Go function) with Go's
+   short-circuit evaluation of && and ||.  GErrRaceProofs.clone_base_tr_erasure proves that the
+   object it builds IS GErrModel.clone_base, for all arguments: the trace belongs to the model
+   the other C15 theorems and the correspondence run are about.
+
+   Go (factory.go CloneBase)                                  here
+   --------------------------------------------------------   -----------------------------
+   base := err._embededGError()  (no memory access)           bi = cell of *base
+   fRef := factoryOf(base); if base.factoryRef != nil {..}    blk_fref
+   clone := &GError{Name: base.Name, ...}                     blk_literal
+   // handle source / detail tags / message extension         blk_source / blk_dtag / blk_msg
+   // handle error inheritance                                blk_inherit
+   clone.laterSrcErrors = ...; srcError / append              blk_later
+   stack test, makeStack, derived source                      blk_stack
+   gerror.go  the 19 methods, Convert's early return          call_tr  (erasure: call)
+   gerror.gotmpl toPrimaryType                                ext_accesses
+   factory.go FactoryOf: err._embededGError().isFactory=true  factory_of_accesses
+   gerror.go  Is: `if e.isFactory && ...` (first statement)   is_head_accesses
+
+   A goroutine owns the cells it allocates; the cells that exist before the goroutines start
+   (indices below the length of the initial store) are the shared ones.  The Go memory model
+   itself (that the compiled code performs these accesses and no others) is exercised by the
+   race-detector run of ./check C15.                                                        *)
 From Coq Require Import NArith List Bool.
 From GT Require Import Base.GErrStr.
 From GT Require Import GErrModel GErrSpec.
 Import ListNotations.
 
-Inductive access := Rd (cell : nat) | Wr (cell : nat).
+(* the fields of GError; FExt = the other fields of a generated extension struct, as one unit *)
+Inductive field := FName | FMsg | FSrc | FDTag | FStack | FFref | FSerr | FLater | FIsFac | FExt.
+
+Definition gerr_fields : list field :=
+  [FName; FMsg; FSrc; FDTag; FStack; FFref; FSerr; FLater; FIsFac].
+
+Definition field_eqb (a b : field) : bool :=
+  match a, b with
+  | FName, FName | FMsg, FMsg | FSrc, FSrc | FDTag, FDTag | FStack, FStack | FFref, FFref
+  | FSerr, FSerr | FLater, FLater | FIsFac, FIsFac | FExt, FExt => true
+  | _, _ => false
+  end.
+
+Inductive access :=
+| Rd (cell : nat) (f : field)
+| Wr (cell : nat) (f : field)
+| RdSlot (arr slot : nat)        (* element [slot] of backing array [arr] (GErrSlice.v) *)
+| WrSlot (arr slot : nat).
+
+(* ---------------------------------------------------------------- memory of one GError *)
+(* what a field holds *)
+Inductive fval :=
+| FS (s : str) | FK (k : option N) | FV (v : val) | FL (l : list val) | FB (b : bool) | FU.
+
+Definition as_s (x : fval) : str := match x with FS s => s | _ => [] end.
+Definition as_k (x : fval) : option N := match x with FK k => k | _ => None end.
+Definition as_v (x : fval) : val := match x with FV v => v | _ => VNil end.
+Definition as_l (x : fval) : list val := match x with FL l => l | _ => [] end.
+Definition as_b (x : fval) : bool := match x with FB b => b | _ => false end.
+
+Definition get_field (g : gerr) (f : field) : fval :=
+  match f with
+  | FName => FS (g_name g) | FMsg => FS (g_msg g) | FSrc => FS (g_src g) | FDTag => FS (g_dtag g)
+  | FStack => FK (g_stack g) | FFref => FV (g_fref g) | FSerr => FV (g_serr g)
+  | FLater => FL (g_later g) | FIsFac => FB (g_isfac g) | FExt => FU
+  end.
+
+(* an assignment of the wrong type does not exist in Go; here it leaves the object unchanged *)
+Definition set_field (g : gerr) (f : field) (x : fval) : gerr :=
+  match g with
+  | mkG n m s d k fr se l b =>
+      match f, x with
+      | FName, FS y => mkG y m s d k fr se l b
+      | FMsg, FS y => mkG n y s d k fr se l b
+      | FSrc, FS y => mkG n m y d k fr se l b
+      | FDTag, FS y => mkG n m s y k fr se l b
+      | FStack, FK y => mkG n m s d y fr se l b
+      | FFref, FV y => mkG n m s d k y se l b
+      | FSerr, FV y => mkG n m s d k fr y l b
+      | FLater, FL y => mkG n m s d k fr se y b
+      | FIsFac, FB y => mkG n m s d k fr se l y
+      | _, _ => g
+      end
+  end.
+
+(* the zero value of GError: what the allocator hands out *)
+Definition zero_gerr : gerr := mkG [] [] [] [] None VNil VNil [] false.
+
+(* ---------------------------------------------------------------- the instrumented CloneBase *)
+Section CloneBaseTr.
+  (* the record of cell [bi] is *base; the object being built lives in cell [fresh] *)
+  Variables (bi fresh : nat) (base : gerr).
+
+  (* a computation over the object under construction that logs its memory accesses *)
+  Definition M (A : Type) : Type := gerr -> A * gerr * list access.
+  Definition ret {A : Type} (a : A) : M A := fun c => (a, c, []).
+  Definition bind {A B : Type} (m : M A) (k : A -> M B) : M B :=
+    fun c => let '(a, c1, t1) := m c in let '(b, c2, t2) := k a c1 in (b, c2, t1 ++ t2).
+  Definition andthen {A : Type} (m : M unit) (k : M A) : M A := bind m (fun _ => k).
+
+  Definition rd_base (f : field) : M fval := fun c => (get_field base f, c, [Rd bi f]).
+  Definition rd_clone (f : field) : M fval := fun c => (get_field c f, c, [Rd fresh f]).
+  Definition wr_clone (f : field) (x : fval) : M unit :=
+    fun c => (tt, set_field c f x, [Wr fresh f]).
+  Definition alloc_clone : M unit := fun _ => (tt, zero_gerr, map (Wr fresh) gerr_fields).
+  Definition skip : M unit := ret tt.
+
+  Notation "x <- m ;; k" := (bind m (fun x => k)) (at level 61, m at next level, right associativity).
+  Notation "m ;;; k" := (andthen m k) (at level 61, right associativity).
+
+  (* fRef := factoryOf(base); if base.factoryRef != nil { fRef = base.factoryRef } *)
+  Definition blk_fref (base_ptr : val) : M val :=
+    fr <- rd_base FFref ;;
+    if is_nil (as_v fr) then ret base_ptr
+    else (fr2 <- rd_base FFref ;; ret (as_v fr2)).
+
+  (* clone := &GError{Name: base.Name, Message: base.Message, Source: base.Source,
+       detailTag: base.detailTag, factoryRef: fRef, stack: base.stack, srcError: base.srcError} *)
+  Definition blk_literal (fref : val) : M unit :=
+    n <- rd_base FName ;; m <- rd_base FMsg ;; s <- rd_base FSrc ;; d <- rd_base FDTag ;;
+    k <- rd_base FStack ;; e <- rd_base FSerr ;;
+    alloc_clone ;;;
+    wr_clone FName n ;;; wr_clone FMsg m ;;; wr_clone FSrc s ;;; wr_clone FDTag d ;;;
+    wr_clone FFref (FV fref) ;;; wr_clone FStack k ;;; wr_clone FSerr e.
+
+  (* if source != "" && clone.Source == "" { clone.Source = source } *)
+  Definition blk_source (src : str) : M unit :=
+    if nonempty src
+    then (cs <- rd_clone FSrc ;; if is_empty (as_s cs) then wr_clone FSrc (FS src) else skip)
+    else skip.
+
+  (* if dTag != "" { if clone.detailTag == "" { clone.detailTag = dTag }
+                     else { clone.detailTag += "-" + dTag } } *)
+  Definition blk_dtag (dtag : str) : M unit :=
+    if is_empty dtag then skip
+    else (cd <- rd_clone FDTag ;;
+          if is_empty (as_s cd) then wr_clone FDTag (FS dtag)
+          else (cd2 <- rd_clone FDTag ;; wr_clone FDTag (FS (as_s cd2 ++ dash ++ dtag)))).
+
+  (* extMsg = strings.TrimSpace(extMsg)
+     if extMsg != "" { if clone.Message == "" { clone.Message = extMsg }
+                       else { clone.Message += " " + extMsg } } *)
+  Definition blk_msg (ext : str) : M unit :=
+    let ext1 := trim_space ext in
+    if is_empty ext1 then skip
+    else (cm <- rd_clone FMsg ;;
+          if is_empty (as_s cm) then wr_clone FMsg (FS ext1)
+          else (cm2 <- rd_clone FMsg ;; wr_clone FMsg (FS (as_s cm2 ++ sp ++ ext1)))).
+
+  (* if clone.factoryRef == nil && base.isFactory { clone.factoryRef = err } *)
+  Definition blk_inherit (err_ptr : val) : M unit :=
+    cf <- rd_clone FFref ;;
+    if is_nil (as_v cf)
+    then (bf <- rd_base FIsFac ;; if as_b bf then wr_clone FFref (FV err_ptr) else skip)
+    else skip.
+
+  (* clone.laterSrcErrors = base.laterSrcErrors
+     if clone.srcError == nil && srcError != nil { clone.srcError = srcError }
+     else if srcError != nil {
+       n := len(base.laterSrcErrors)
+       clone.laterSrcErrors = append(base.laterSrcErrors[:n:n], srcError) }
+     The slice header is the field; what append does to the backing array is GErrSlice.v. *)
+  Definition blk_later (serr : val) : M unit :=
+    bl <- rd_base FLater ;;
+    wr_clone FLater bl ;;;
+    cse <- rd_clone FSerr ;;
+    if is_nil (as_v cse) && negb (is_nil serr) then wr_clone FSerr (FV serr)
+    else if negb (is_nil serr)
+         then (_ <- rd_base FLater ;;            (* len(base.laterSrcErrors) *)
+               l2 <- rd_base FLater ;;           (* base.laterSrcErrors[:n:n] *)
+               wr_clone FLater (FL (as_l l2 ++ [serr])))
+         else skip.
+
+  (* if len(clone.stack) > 0 || stackType == NoStack ||
+        stackType == SourceStack && clone.Source != "" { return clone }
+     clone.stack = makeStack(stackType, defaultSkip)
+     if clone.Source == "" {
+       clone.Source = clone.stack.NearestExternal().Metric()
+       if stackType == SourceStack { clone.stack = nil } } *)
+  Definition blk_stack (stt : stack_type) (site : N) (derived : str) : M unit :=
+    ck <- rd_clone FStack ;;
+    done <- (match as_k ck with
+             | Some _ => ret true
+             | None =>
+                 if stack_type_eqb stt NoStack then ret true
+                 else if stack_type_eqb stt SourceStack
+                      then (cs <- rd_clone FSrc ;; ret (nonempty (as_s cs)))
+                      else ret false
+             end) ;;
+    if done : bool then skip
+    else (wr_clone FStack (FK (Some site)) ;;;
+          cs <- rd_clone FSrc ;;
+          if is_empty (as_s cs)
+          then (_ <- rd_clone FStack ;;
+                wr_clone FSrc (FS derived) ;;;
+                if stack_type_eqb stt SourceStack then wr_clone FStack (FK None) else skip)
+          else skip).
+
+  Definition clone_base_prog (base_ptr err_ptr : val) (stt : stack_type) (dtag src ext : str)
+             (serr : val) (site : N) (derived : str) : M unit :=
+    fref <- blk_fref base_ptr ;;
+    blk_literal fref ;;;
+    blk_source src ;;;
+    blk_dtag dtag ;;;
+    blk_msg ext ;;;
+    blk_inherit err_ptr ;;;
+    blk_later serr ;;;
+    blk_stack stt site derived.
+
+  (* run from uninitialised memory: the object built and the accesses made *)
+  Definition clone_base_tr (base_ptr err_ptr : val) (stt : stack_type) (dtag src ext : str)
+             (serr : val) (site : N) (derived : str) : gerr * list access :=
+    let '(_, c, t) :=
+      clone_base_prog base_ptr err_ptr stt dtag src ext serr site derived zero_gerr in (c, t).
+End CloneBaseTr.
+
+Arguments ret {A} a. Arguments bind {A B} m k. Arguments andthen {A} m k.
+
+(* result, final object and trace of a computation started on object [c] *)
+Definition run_val {A : Type} (m : M A) (c : gerr) : A := fst (fst (m c)).
+Definition run_st {A : Type} (m : M A) (c : gerr) : gerr := snd (fst (m c)).
+Definition run_tr {A : Type} (m : M A) (c : gerr) : list access := snd (m c).
+
+(* every access of such a trace is a read of *base or of the clone, or a write of the clone *)
+Definition local_access (bi fresh : nat) (x : access) : Prop :=
+  match x with
+  | Rd c _ => c = bi \/ c = fresh
+  | Wr c _ => c = fresh
+  | RdSlot _ _ | WrSlot _ _ => False
+  end.
+
+(* ---------------------------------------------------------------- the 19 methods *)
+Definition apply_wiring_tr (bi fresh : nat) (w : wiring) (base : gerr) (base_ptr err_ptr : val)
+           (a : margs) : gerr * list access :=
+  clone_base_tr bi fresh base base_ptr err_ptr (w_stack w) (eval_a a (w_dtag w))
+                (eval_a a (w_src w)) (eval_a a (w_msg w)) (eval_e a (w_serr w))
+                (a_site a) (a_derived a).
+
+(* toPrimaryType(clone): result := &T{GError: *gerr, F: e.F for every clone-tagged field F}.
+   The temporary *GError made by CloneBase and the struct made here are one cell of the store
+   model (the temporary is unreachable after the call): the copy of *gerr reads and writes the
+   fresh cell; the clone-tagged fields of the receiver are read, the new struct's are written
+   (object granularity: FExt). *)
+Definition ext_accesses (i fresh : nat) : list access :=
+  flat_map (fun f => [Rd fresh f; Wr fresh f]) gerr_fields ++ [Rd i FExt; Wr fresh FExt].
+
+(* [call] with its memory accesses.  `if gerr, ok := err.(Error); ok { return gerr }` inspects
+   the dynamic type of the argument only: no field of any gerror object. *)
+Definition call_tr (xw : method -> wiring) (st : store) (v : val) (m : method) (a : margs)
+  : option (store * val) * list access :=
+  match v with
+  | VG i =>
+      match nth_error st i with
+      | None => (None, [])
+      | Some c =>
+          let w := base_wiring m in
+          if w_guard w && is_gerr_val (a_err a) then (Some (st, a_err a), [])
+          else let '(g, t) := apply_wiring_tr i (length st) w (c_g c) (VG i) (VG i) a in
+               (Some (st ++ [mkC g None], VG (length st)), t)
+      end
+  | VX i =>
+      match nth_error st i with
+      | None => (None, [])
+      | Some c =>
+          match c_x c with
+          | None => (None, [])
+          | Some x =>
+              let w := xw m in
+              if w_guard w && is_gerr_val (a_err a) then (Some (st, a_err a), [])
+              else let '(g, t) := apply_wiring_tr i (length st) w (c_g c) (VG i) (VX i) a in
+                   (Some (st ++ [mkC g (Some (to_primary x))], VX (length st)),
+                    t ++ ext_accesses i (length st))
+          end
+      end
+  | _ => (None, [])
+  end.
 
 Definition call_accesses (xw : method -> wiring) (st : store) (v : val) (m : method) (a : margs)
-  : list access :=
-  match as_gerror v with
-  | None => []
-  | Some i =>
-      if w_guard (wt_of xw v m) && is_gerr_val (a_err a) then [] else [Rd i; Wr (length st)]
-  end.
+  : list access := snd (call_tr xw st v m a).
 
-Fixpoint derive_accesses (xw : method -> wiring) (st : store) (v : val) (ch : list step)
-  : list access :=
+Fixpoint derive_tr (xw : method -> wiring) (st : store) (v : val) (ch : list step)
+  : option (store * val) * list access :=
   match ch with
-  | [] => []
+  | [] => (Some (st, v), [])
   | (m, a) :: r =>
-      call_accesses xw st v m a ++
-      match call xw st v m a with
-      | Some (st', v') => derive_accesses xw st' v' r
-      | None => []
+      match call_tr xw st v m a with
+      | (None, t) => (None, t)
+      | (Some (st', v'), t) => let '(res, t') := derive_tr xw st' v' r in (res, t ++ t')
       end
   end.
+
+Definition derive_accesses (xw : method -> wiring) (st : store) (v : val) (ch : list step)
+  : list access := snd (derive_tr xw st v ch).
 
 (* a goroutine: chains run one after the other, each from some value of its current store *)
-Fixpoint thread_accesses (xw : method -> wiring) (st : store) (jobs : list (val * list step))
-  : list access :=
+Fixpoint thread_tr (xw : method -> wiring) (st : store) (jobs : list (val * list step))
+  : option store * list access :=
   match jobs with
-  | [] => []
+  | [] => (Some st, [])
   | (v, ch) :: rest =>
-      derive_accesses xw st v ch ++
-      match derive xw st v ch with
-      | Some (st', _) => thread_accesses xw st' rest
-      | None => []
+      match derive_tr xw st v ch with
+      | (None, t) => (None, t)
+      | (Some (st', _), t) => let '(res, t') := thread_tr xw st' rest in (res, t ++ t')
       end
   end.
 
-Definition is_shared_write (n : nat) (x : access) : bool :=
-  match x with Wr c => Nat.ltb c n | Rd _ => false end.
+Definition thread_accesses (xw : method -> wiring) (st : store) (jobs : list (val * list step))
+  : list access := snd (thread_tr xw st jobs).
 
-(* two accesses of different goroutines race when they touch the same shared object and one of
-   them writes *)
-Definition conflict (n : nat) (x y : access) : Prop :=
+(* FactoryOf(err): err._embededGError().isFactory = true — the one write gerror makes to an
+   EXISTING object (GErrModel.set_isfac) *)
+Definition factory_of_accesses (i : nat) : list access := [Wr i FIsFac].
+(* GError.Is, ExtractFactoryReference, Switch start by reading isFactory of the receiver *)
+Definition is_head_accesses (i : nat) : list access := [Rd i FIsFac].
+
+(* ---------------------------------------------------------------- races *)
+(* [n] cells and [nh] backing arrays exist when the goroutines start: those are shared *)
+Definition is_shared_write (n nh : nat) (x : access) : bool :=
+  match x with
+  | Wr c _ => Nat.ltb c n
+  | WrSlot a _ => Nat.ltb a nh
+  | Rd _ _ | RdSlot _ _ => false
+  end.
+
+(* two accesses of different goroutines conflict when they touch the same field of the same
+   shared cell (the same slot of the same shared array) and at least one of them writes *)
+Definition conflict (n nh : nat) (x y : access) : Prop :=
   match x, y with
-  | Wr c, Rd d | Rd c, Wr d | Wr c, Wr d => c = d /\ c < n
-  | Rd _, Rd _ => False
+  | Wr c f, Rd d g | Rd c f, Wr d g | Wr c f, Wr d g => c = d /\ f = g /\ c < n
+  | WrSlot a k, RdSlot b j | RdSlot a k, WrSlot b j | WrSlot a k, WrSlot b j =>
+      a = b /\ k = j /\ a < nh
+  | _, _ => False
+  end.
+
+(* the coarser relation of the first version of this file: same shared OBJECT, one writes *)
+Definition object_conflict (n : nat) (x y : access) : Prop :=
+  match x, y with
+  | Wr c _, Rd d _ | Rd c _, Wr d _ | Wr c _, Wr d _ => c = d /\ c < n
+  | _, _ => False
   end.
